@@ -205,13 +205,24 @@ class Engine:
     def feasible(self, m, extra=()):
         return self.check(list(m.pc) + list(extra)) != z3.unsat
 
-    def model(self, conds):
-        self.solver.push()
-        for c in conds:
-            self.solver.add(c)
-        r = self.solver.check()
-        mod = self.solver.model() if r == z3.sat else None
-        self.solver.pop()
+    def model(self, conds, logic=None, timeout_ms=None):
+        t = time.time()
+        if logic:
+            sv = z3.SolverFor(logic)
+            sv.set("timeout", timeout_ms or 120000)
+            for c in conds:
+                sv.add(c)
+            r = sv.check()
+            mod = sv.model() if r == z3.sat else None
+        else:
+            self.solver.push()
+            for c in conds:
+                self.solver.add(c)
+            r = self.solver.check()
+            mod = self.solver.model() if r == z3.sat else None
+            self.solver.pop()
+        self.solver_time += time.time() - t
+        self.solver_calls += 1
         return r, mod
 
     def decide(self, m, key, conds):
